@@ -303,8 +303,10 @@ def _run(t: int, c0: int, incl: bool, ipos: int, mra: int, faults: List[int], li
 @obligation(quick=200, thorough=600,
             partitions_quick=["nd == 0", "nd == 1 and t <= 2", "nd == 1 and t == 3", "nd == 2 and t == 1", "nd == 2 and t == 2"],
             partitions_thorough=["nd == 0", "nd == 1"] + [f"nd == 2 and t == {t}" for t in range(1, 5)]
-            + [f"nd == 3 and t == {t} and c0 == {c} and d1 {h} and d2 {h2}" for t in range(1, 5) for c in range(-1, t) for h in ("<= 4", ">= 5")
-               for h2 in ("<= 4", ">= 5") if not ((h == ">= 5" or h2 == ">= 5") and 3 * (t - 1 - c) < 5)],
+            + [f"nd == 3 and t == {t} and c0 == {c} and d1 {h} and d2 {h2}" + (f" and d3 {h3}" if h3 else "")
+               for t in range(1, 5) for c in range(-1, t) for h in ("<= 4", ">= 5") for h2 in ("<= 4", ">= 5")
+               for h3 in (("<= 4", ">= 5") if (t == 4 and c <= 0) else ("",))      # the longest logs: split on the third fault as well
+               if not ((h == ">= 5" or h2 == ">= 5" or h3 == ">= 5") and 3 * (t - 1 - c) < 5)],
             what="completed run, cursor anywhere: every later event exactly once, in order, last_sequence == yielded "
                  "sequence, for every placement of <= max_reconnect_attempts faults (connect error, or drop after any line)",
             bounds={"events t": "1..TMAX", "cursor c0": "-1..t-1", "max_reconnect_attempts": "0..MRA", "faults nd": "0..mra",
